@@ -92,8 +92,8 @@ public:
 		if(!_front) {
 			_back = borrow;
 		}else{
+			h(traits::decay(_front)).previous = borrow;
 			h(borrow).next = std::move(_front);
-			h(_front).previous = borrow;
 		}
 		_front = std::move(element);
 		h(borrow).in_list = true;
